@@ -7,10 +7,10 @@ namespace RgVerif.Searcher
 open RgVerif RgVerif.Matcher RgVerif.Lines RgVerif.GrepSpec
 
 /-- `w` is the window of `B` at offset `pre.length` -/
-structure Win (B pre w post : Bytes) : Prop where
+structure WinOf (B pre w post : Bytes) : Prop where
   eq : B = pre ++ (w ++ post)
 
-theorem Win.slice {B pre w post : Bytes} (h : Win B pre w post) (s e : Nat) (he : e ≤ w.length) :
+theorem WinOf.slice {B pre w post : Bytes} (h : WinOf B pre w post) (s e : Nat) (he : e ≤ w.length) :
     slice B (s + pre.length) (e + pre.length) = slice w s e := by
   rw [h.eq]
   unfold Lines.slice
@@ -44,19 +44,19 @@ structure StepSim (cfg : Config) (B w : Bytes) (d : Nat) (R1 R2 : Core × Res Bo
   cont : R1.2 = .ok true → ESim cfg B w d R1.1 R2.1
   fin : ESimEnd d R1.1 R2.1
 
-def respRes : Resp → Res Bool
+def respOf : Resp → Res Bool
   | .cont => .ok true
   | .stop => .ok false
   | .err => .err
 
-theorem emit_eq (σ : Script) (st : Core) (ev : Event) :
-    emit σ st ev = ({ st with events := st.events ++ [ev] }, respRes (σ st.events.length)) := by
+theorem emit_def (σ : Script) (st : Core) (ev : Event) :
+    emit σ st ev = ({ st with events := st.events ++ [ev] }, respOf (σ st.events.length)) := by
   unfold emit
   dsimp only
   cases σ st.events.length <;> rfl
 
 /-- the two sides of a delivery: same callback, related states afterwards -/
-theorem deliver_sim {cfg : Config} {B pre w post : Bytes} (W : Win B pre w post) {s1 s2 : Core}
+theorem deliver_sim {cfg : Config} {B pre w post : Bytes} (W : WinOf B pre w post) {s1 s2 : Core}
     (E : ESim cfg B w pre.length s1 s2) (o e : Nat) (ho : s2.lastLineVisited ≤ o) (hoe : o ≤ e) (he : e ≤ w.length)
     (mk : Option Nat → Nat → Bytes → Event) :
     let cl1 := countLines cfg B s1 (o + pre.length)
@@ -141,7 +141,7 @@ theorem deliver_sim {cfg : Config} {B pre w post : Bytes} (W : Win B pre w post)
 theorem ESim.toEnd {cfg : Config} {B w : Bytes} {d : Nat} {s1 s2 : Core} (E : ESim cfg B w d s1 s2) :
     ESimEnd d s1 s2 := E.toESimEnd
 
-theorem sinkCtx_sim_aux {cfg : Config} {B pre w post : Bytes} (W : Win B pre w post) (hbin : cfg.binary = .none)
+theorem sinkCtx_sim_aux {cfg : Config} {B pre w post : Bytes} (W : WinOf B pre w post) (hbin : cfg.binary = .none)
     (σ : Script) {s1 s2 : Core} (E : ESim cfg B w pre.length s1 s2) (o e : Nat)
     (ho : s2.lastLineVisited ≤ o) (hoe : o ≤ e) (he : e ≤ w.length) (k : CtxKind)
     (upd1 upd2 : Core → Core) (g : Nat → Nat)
@@ -178,10 +178,10 @@ theorem sinkCtx_sim_aux {cfg : Config} {B pre w post : Bytes} (W : Win B pre w p
   rw [binaryGuard_none hbin E.bin1, binaryGuard_none hbin E.bin2]
   dsimp only
   obtain ⟨hev, hevs, hend, hcont⟩ := deliver_sim W E o e ho hoe he (Event.context k)
-  rw [emit_eq, emit_eq, hevs, hev]
+  rw [emit_def, emit_def, hevs, hev]
   cases σ (countLines cfg w s2 o).events.length with
   | cont =>
-    simp only [respRes]
+    simp only [respOf]
     refine ⟨rfl, fun _ => ?_, ?_⟩
     · have := hcont upd1 upd2 g h1 h2
       rw [hev, hevs] at this
@@ -190,17 +190,17 @@ theorem sinkCtx_sim_aux {cfg : Config} {B pre w post : Bytes} (W : Win B pre w p
       rw [hev, hevs] at this
       exact this
   | stop =>
-    simp only [respRes]
+    simp only [respOf]
     refine ⟨rfl, (fun h => by simp at h), ?_⟩
     rw [hev, hevs] at hend
     exact hend
   | err =>
-    simp only [respRes]
+    simp only [respOf]
     refine ⟨rfl, (fun h => by simp at h), ?_⟩
     rw [hev, hevs] at hend
     exact hend
 
-theorem sinkBeforeContext_sim {cfg : Config} {B pre w post : Bytes} (W : Win B pre w post) (hbin : cfg.binary = .none)
+theorem sinkBeforeContext_sim {cfg : Config} {B pre w post : Bytes} (W : WinOf B pre w post) (hbin : cfg.binary = .none)
     (σ : Script) {s1 s2 : Core} (E : ESim cfg B w pre.length s1 s2) (o e : Nat)
     (ho : s2.lastLineVisited ≤ o) (hoe : o ≤ e) (he : e ≤ w.length) :
     StepSim cfg B w pre.length (sinkBeforeContext cfg σ B s1 ⟨o + pre.length, e + pre.length⟩)
@@ -210,7 +210,7 @@ theorem sinkBeforeContext_sim {cfg : Config} {B pre w post : Bytes} (W : Win B p
     (fun s => { s with lastLineVisited := e, hasSunk := true }) id
     (fun _ => ⟨rfl, rfl, rfl, rfl, rfl, rfl, rfl, rfl, rfl, rfl⟩) (fun _ => ⟨rfl, rfl, rfl, rfl, rfl, rfl, rfl, rfl, rfl, rfl⟩)
 
-theorem sinkAfterContext_sim {cfg : Config} {B pre w post : Bytes} (W : Win B pre w post) (hbin : cfg.binary = .none)
+theorem sinkAfterContext_sim {cfg : Config} {B pre w post : Bytes} (W : WinOf B pre w post) (hbin : cfg.binary = .none)
     (σ : Script) {s1 s2 : Core} (E : ESim cfg B w pre.length s1 s2) (o e : Nat)
     (ho : s2.lastLineVisited ≤ o) (hoe : o ≤ e) (he : e ≤ w.length) :
     StepSim cfg B w pre.length (sinkAfterContext cfg σ B s1 ⟨o + pre.length, e + pre.length⟩)
@@ -221,7 +221,7 @@ theorem sinkAfterContext_sim {cfg : Config} {B pre w post : Bytes} (W : Win B pr
     (fun a => a - 1)
     (fun _ => ⟨rfl, rfl, rfl, rfl, rfl, rfl, rfl, rfl, rfl, rfl⟩) (fun _ => ⟨rfl, rfl, rfl, rfl, rfl, rfl, rfl, rfl, rfl, rfl⟩)
 
-theorem sinkOtherContext_sim {cfg : Config} {B pre w post : Bytes} (W : Win B pre w post) (hbin : cfg.binary = .none)
+theorem sinkOtherContext_sim {cfg : Config} {B pre w post : Bytes} (W : WinOf B pre w post) (hbin : cfg.binary = .none)
     (σ : Script) {s1 s2 : Core} (E : ESim cfg B w pre.length s1 s2) (o e : Nat)
     (ho : s2.lastLineVisited ≤ o) (hoe : o ≤ e) (he : e ≤ w.length) :
     StepSim cfg B w pre.length (sinkOtherContext cfg σ B s1 ⟨o + pre.length, e + pre.length⟩)
@@ -234,21 +234,32 @@ theorem sinkOtherContext_sim {cfg : Config} {B pre w post : Bytes} (W : Win B pr
 /-- `sink_break_context` on both sides -/
 theorem sinkBreakContext_sim {cfg : Config} {B w : Bytes} {d : Nat} (σ : Script) {s1 s2 : Core}
     (E : ESim cfg B w d s1 s2) (o : Nat)
-    (hgap : decide (s1.lastLineVisited < o + d) = decide (s2.lastLineVisited < o)) :
+    (hgap : cfg.maxContext = 0 ∨ decide (s1.lastLineVisited < o + d) = decide (s2.lastLineVisited < o)) :
     StepSim cfg B w d (sinkBreakContext cfg σ s1 (o + d)) (sinkBreakContext cfg σ s2 o) := by
   unfold sinkBreakContext
   dsimp only
-  rw [hgap, E.sunk]
+  have hcond : (!(decide (cfg.beforeContext > 0) || decide (cfg.afterContext > 0)) || !s1.hasSunk ||
+        !decide (s1.lastLineVisited < o + d))
+      = (!(decide (cfg.beforeContext > 0) || decide (cfg.afterContext > 0)) || !s2.hasSunk ||
+        !decide (s2.lastLineVisited < o)) := by
+    cases hgap with
+    | inl h0 =>
+      unfold Config.maxContext at h0
+      have hb : cfg.beforeContext = 0 := by omega
+      have ha : cfg.afterContext = 0 := by omega
+      simp [hb, ha]
+    | inr hg => rw [hg, E.sunk]
+  rw [hcond]
   split
   · exact ⟨rfl, fun _ => E, E.toEnd⟩
-  · rw [emit_eq, emit_eq, E.ev]
+  · rw [emit_def, emit_def, E.ev]
     have hE : ESim cfg B w d { s1 with events := s2.events ++ [Event.contextBreak] }
         { s2 with events := s2.events ++ [Event.contextBreak] } :=
       ⟨⟨rfl, E.abs, E.pos, E.bin1, E.bin2⟩, E.llv, E.acl, E.sunk, E.hm, E.llc1, E.llc2, E.ln⟩
     cases σ s2.events.length with
     | cont => exact ⟨rfl, fun _ => hE, hE.toEnd⟩
-    | stop => exact ⟨rfl, (fun h => by simp [respRes] at h), hE.toEnd⟩
-    | err => exact ⟨rfl, (fun h => by simp [respRes] at h), hE.toEnd⟩
+    | stop => exact ⟨rfl, (fun h => by simp [respOf] at h), hE.toEnd⟩
+    | err => exact ⟨rfl, (fun h => by simp [respOf] at h), hE.toEnd⟩
 
 theorem sinkBreakContext_llv (cfg : Config) (σ : Script) (st : Core) (o : Nat) :
     (sinkBreakContext cfg σ st o).1.lastLineVisited = st.lastLineVisited := by
@@ -256,12 +267,12 @@ theorem sinkBreakContext_llv (cfg : Config) (σ : Script) (st : Core) (o : Nat) 
   dsimp only
   split
   · rfl
-  · rw [emit_eq]
+  · rw [emit_def]
 
-theorem sinkMatched_sim {cfg : Config} {B pre w post : Bytes} (W : Win B pre w post) (hbin : cfg.binary = .none)
+theorem sinkMatched_sim {cfg : Config} {B pre w post : Bytes} (W : WinOf B pre w post) (hbin : cfg.binary = .none)
     (σ : Script) {s1 s2 : Core} (E : ESim cfg B w pre.length s1 s2) (o e : Nat)
     (ho : s2.lastLineVisited ≤ o) (hoe : o ≤ e) (he : e ≤ w.length)
-    (hgap : decide (s1.lastLineVisited < o + pre.length) = decide (s2.lastLineVisited < o)) :
+    (hgap : cfg.maxContext = 0 ∨ decide (s1.lastLineVisited < o + pre.length) = decide (s2.lastLineVisited < o)) :
     StepSim cfg B w pre.length (sinkMatched cfg σ B s1 ⟨o + pre.length, e + pre.length⟩)
       (sinkMatched cfg σ w s2 ⟨o, e⟩) := by
   unfold sinkMatched
@@ -288,7 +299,7 @@ theorem sinkMatched_sim {cfg : Config} {B pre w post : Bytes} (W : Win B pre w p
         have : t2.lastLineVisited = s2.lastLineVisited := hl2
         omega
       obtain ⟨hev, hevs, hend, hcont⟩ := deliver_sim W E2 o e hllv hoe he Event.matched
-      rw [emit_eq, emit_eq, hevs, hev]
+      rw [emit_def, emit_def, hevs, hev]
       have hc := hcont
         (fun s => { s with lastLineVisited := e + pre.length, afterContextLeft := cfg.afterContext, hasSunk := true })
         (fun s => { s with lastLineVisited := e, afterContextLeft := cfg.afterContext, hasSunk := true })
@@ -297,7 +308,7 @@ theorem sinkMatched_sim {cfg : Config} {B pre w post : Bytes} (W : Win B pre w p
       rw [hev, hevs] at hc hend
       cases σ (countLines cfg w t2 o).events.length with
       | cont => exact ⟨rfl, fun _ => hc, hc.toEnd⟩
-      | stop => exact ⟨rfl, (fun h => by simp [respRes] at h), hend⟩
-      | err => exact ⟨rfl, (fun h => by simp [respRes] at h), hend⟩
+      | stop => exact ⟨rfl, (fun h => by simp [respOf] at h), hend⟩
+      | err => exact ⟨rfl, (fun h => by simp [respOf] at h), hend⟩
 
 end RgVerif.Searcher
